@@ -269,6 +269,17 @@ impl State {
                                 Err(p) => self.fail("panic", format!("eval of {src:?} panicked at {p}"), case, json!({"panic": p})),
                             }
                         }
+                        // nor through the read-only walk (a second implementation of the evaluation)
+                        match guard(|| t.eval_with_context(&ctxs[1])) {
+                            Ok(Ok(v)) => self.fail(
+                                "if_evaluates",
+                                format!("{src:?}: ill-formed input evaluates to {v:?} (read-only evaluation)"),
+                                case,
+                                json!({"ok": true, "v": enc_value(&v), "mode": "imm"}),
+                            ),
+                            Ok(Err(_)) => {},
+                            Err(p) => self.fail("panic", format!("read-only eval of {src:?} panicked at {p}"), case, json!({"panic": p})),
+                        }
                     },
                     Err(e) => {
                         if bal && matches!(e, EvalexprError::UnmatchedLBrace | EvalexprError::UnmatchedRBrace) {
@@ -682,8 +693,13 @@ impl State {
             let mut none = false;
             let r: Result<Result<V, E>, String> = guard(|| {
                 if op == "clone" {
-                    let c = slots[s].clone();
-                    slots[1 - s] = c;
+                    // `Clone::clone_from` where the target exists (a hand-written clone_from is a second implementation of
+                    // cloning), `clone` where it does not
+                    let src = slots[s].clone();
+                    match (src, slots[1 - s].as_mut()) {
+                        (Some(src), Some(dst)) => dst.clone_from(&src),
+                        (src, _) => slots[1 - s] = src,
+                    }
                     return Ok(Value::Empty);
                 }
                 let c = match slots[s].as_mut() {
